@@ -137,7 +137,7 @@ func HarnessAttrQuery() {
 	// history (C12 / C15): nothing | an earlier attribute query of the same service provider,
 	// served under another host by a provider that derives its issuer from the request
 	hist := 0
-	if (vrtProp("C12") || vrtProp("C15")) && doc != nil && vrtBool("hist.attrquery") {
+	if (vrtProp("C12") || vrtProp("C15")) && doc != nil && !vrtBool("hist.none") {
 		hist = 5
 		vrtHostIssuer = true
 		vrtEarlierEntityID = string(doc.EntityID)
